@@ -7,7 +7,12 @@ package proxy
 //                      RetryPolicy; the transport (package variable fnSendRequest) is scripted per
 //                      request. After every request the harness records what the client saw, how many
 //                      calls reached the transport, and the breaker's own window total and state.
-// Judging is done by TLC (CircuitBreakerPool_Trace) against the breaker contract of C08.
+//                      Every third trace runs on a Proxy whose main pool and candidate pool name the same
+//                      circuitBreakerPolicy, every third on two Proxy filters that were handed the same
+//                      policy objects (as the filters of one pipeline are): requests go to either pool, one
+//                      of which fails a lot; the breaker observed is the one of the pool that served.
+// Judging is done by TLC (CircuitBreakerPool_Trace) against the breaker contract of C08, for the history
+// of each pool on its own.
 
 import (
 	stdcontext "context"
